@@ -21,6 +21,7 @@ import (
 	"errors"
 	"fmt"
 	"math"
+	"regexp"
 	"sort"
 	"strconv"
 	"strings"
@@ -395,14 +396,20 @@ func ParseDecimal(s string, fracDigRequired uint8) (n Number, err error) {
 // be at least the greatest precision seen in numStr.
 // which must be between 1 and 18.
 // numStr must conform to Section 9.3.4.
+// decimalSyntax is what decimalValueFromString reads as a decimal number: an
+// optional sign, digits with at most one point among them, and at least one
+// digit.
+var decimalSyntax = regexp.MustCompile(`^[+-]?([0-9]+\.?[0-9]*|\.[0-9]+)$`)
+
 func decimalValueFromString(numStr string, fracDigRequired uint8) (n Number, err error) {
 	if fracDigRequired > MaxFractionDigits || fracDigRequired < 1 {
 		return n, fmt.Errorf("invalid number of fraction digits %d > max of %d, minimum 1", fracDigRequired, MaxFractionDigits)
 	}
 
-	// The zero padding below would turn a literal without any digit
-	// (".", "-.") into a number.
-	if !strings.ContainsAny(numStr, "0123456789") {
+	// A sign stands in front and there is at most one point; removing the
+	// point and padding with zeros below would otherwise turn texts such as
+	// ".", "-." or ".-5" into numbers.
+	if !decimalSyntax.MatchString(numStr) {
 		return n, fmt.Errorf("%s is not a valid decimal number: invalid syntax", numStr)
 	}
 
